@@ -1,4 +1,5 @@
 import time, vf
+from concurrent.futures import ThreadPoolExecutor
 PID = "C20"
 H = vf.VERIF + "/checks/C20/harness.cpp"
 STUB = [vf.VERIF + "/engine/sched/log_stub.cpp"]
@@ -9,19 +10,25 @@ FIRE = ["weekly-10h-everyday-tz0", "weekly-10h-everyday-start-5ms-before", "week
 def main(tier, args):
     t0 = time.time()
     srcs = vf.module_sources("alarm", "event")
-    asan = vf.build("C20/alarm_asan", [H], srcs, mode="asan", plain_srcs=STUB)
+    # one source, two executables (sweep half / firing half) built concurrently; the harness TU itself is compiled -Og -g0
+    # (25 s -> 8 s of compile time; the cpp-tbox sources keep -O1 -g with ASan+UBSan)
+    with ThreadPoolExecutor(2) as ex:
+        fs = ex.submit(vf.build, "C20/alarm_sweep_asan", [H], srcs, mode="asan", plain_srcs=STUB, harness_flags=["-Og", "-g0", "-DC20_ONLY_SWEEP"])
+        ff = ex.submit(vf.build, "C20/alarm_fire_asan", [H], srcs, mode="asan", plain_srcs=STUB, harness_flags=["-Og", "-g0", "-DC20_ONLY_FIRE"])
+        sweep, firex = fs.result(), ff.result()
     quick = tier == "quick"
-    depth, dl = (6, 60) if quick else (8, 1100)
+    depth, dl, budget = (6, 60, 85) if quick else (8, 1100, 1260)
     res = vf.Result(); log = open(vf.BUILD + "/C20/log.txt", "w")
-    env = {"VERIF_DEADLINE_S": str(dl)}
+    # per-process deadline + a check-wide absolute one, so that queued processes cannot add up beyond the tier budget
+    env = {"VERIF_DEADLINE_S": str(dl), "C20_DEADLINE_ABS": "%.0f" % (t0 + budget)}
     cmds = []
     # firing histories first (the longest jobs), then the sweeps; ASan+UBSan build for everything (the week sweep runs 5*10^7 calls/s under ASan, -O2 is not needed)
-    cmds += [("fire:" + c, [asan, "fire", c, str(depth)]) for c in FIRE]
-    cmds += [("weekly-full:%d" % i, [asan, "sweep-weekly-full", str(i), "16", tier]) for i in range(16)]
-    cmds += [("weekly-tz:%d" % i, [asan, "sweep-weekly-tz", str(i), "16", tier]) for i in range(16)]
-    cmds += [("cron:%d" % i, [asan, "sweep-cron", str(i), "16", tier]) for i in range(16)]
-    cmds += [("workday:%d" % i, [asan, "sweep-workday", str(i), "8", tier]) for i in range(8)]
-    cmds += [("oneshot:%d" % i, [asan, "sweep-oneshot", str(i), "4", tier]) for i in range(4)]
+    cmds += [("fire:" + c, [firex, "fire", c, str(depth)]) for c in FIRE]
+    cmds += [("weekly-full:%d" % i, [sweep, "sweep-weekly-full", str(i), "16", tier]) for i in range(16)]
+    cmds += [("weekly-tz:%d" % i, [sweep, "sweep-weekly-tz", str(i), "16", tier]) for i in range(16)]
+    cmds += [("cron:%d" % i, [sweep, "sweep-cron", str(i), "16", tier]) for i in range(16)]
+    cmds += [("workday:%d" % i, [sweep, "sweep-workday", str(i), "8", tier]) for i in range(8)]
+    cmds += [("oneshot:%d" % i, [sweep, "sweep-oneshot", str(i), "4", tier]) for i in range(4)]
     if args.only:
         cmds = [c for c in cmds if c[0].startswith(args.only)]
     vf.run_procs(res, cmds, env=env, log=log)
@@ -30,13 +37,13 @@ def main(tier, args):
                    "last week below 2^32-(1 week+14 h)) x all 128 weekday masks x seconds-of-day {0,86399} (+ %s) through a probe subclass, and +-2 s around every UTC/local day "
                    "boundary and trigger x tz -12h..+14h step 15 min x seconds-of-day {0,1,43200,86398,86399} x %s masks through the real activeTimer() under a virtual wall clock; "
                    "one-shot = every second of 2 days x 9 boundary seconds-of-day + every second-of-day x boundary instants + all tz; workday = all calendars with <=3 special days in a "
-                   "10-day window x 5 week masks + single matching day 1..400 days ahead; cron = shapes 's m h * * *', 's m h * * d', 's m h D M *' with extreme field values x dense "
+                   "10-day window x 4 (thorough 6) week masks + single matching day 1..400 days ahead; cron = shapes 's m h * * *', 's m h * * d', 's m h D M *' with extreme field values x dense "
                    "boundary instants over 7 windows and per-day probes over 5+5 years; oracle = independent day-scan reference (own civil calendar), result strictly after now, armed "
                    "delay >= wall distance. (2) firing: BFS over histories of {enable, disable, refresh, pass, skew monotonic +5 ms, wall +-1 h, advance to half/T-5ms/T/T+1s} "
                    "depth<=%d on %d weekly/one-shot/cron/workday configurations (targets 40/50/60/100/400 days ahead included) under virtual wall + monotonic clocks; state = full alarm + "
                    "timer + loop-timer record + model; oracle = one callback per matching instant, never two, none while disabled, one-shot once, armed delay (TimerEvent interval and "
                    "loop timer record) >= wall distance at arming, armed target = earliest matching instant"
-                   % ("{1,23296,43200,86398} at every second and 24 more values on a stride-7 grid" if quick else "every 5-minute value, every hour +-1 and 16 boundary values at every second", "40 (all with <=2 or >=6 days set + 3 patterns)" if quick else "all 128", depth, len(FIRE)),
+                   % ("{1,23296,43200,86398} and 12 more values on a stride-7 grid" if quick else "every 10-minute value, every hour +-1 and 16 boundary values at every second", "40 (all with <=2 or >=6 days set + 3 patterns)" if quick else "all 128", depth, len(FIRE)),
               assumptions=["instants within one week + 14 h of 2^32 are excluded; so are inputs whose local time now+tz is negative",
                            "a 'not found' answer is accepted beyond the implementation's search horizon (weekly 8 days, workday 367 days, cron 4 years)",
                            "clock advances stop at each matching instant (+<=1 s) and are followed by a loop pass: no catch-up is demanded",
